@@ -81,6 +81,12 @@ class C10(Check):
         # operations that switch huge-tree support on for their own call (manager default: off)
         for op in ('get_schema', 'junos-get_configuration-text', 'sros-md_cli_raw_command'):
             out.append({'kind': 'huge-op', 'op': op, 'size': 10 * 1024 * 1024 + 5000})
+        # several sessions of one process receive deep replies at the same time (profiles with a reply transform included)
+        for prof in (('junos',) if tier == 'quick' else ('junos', 'alu', 'default')):
+            out.append({'kind': 'huge-concurrent', 'profile': prof, 'threads': 4, 'rounds': 8 if tier == 'quick' else 40, 'depth': 1700})
+        # ... and vendor operations called on a manager whose huge_tree is ON: the operation may not switch it off again
+        for op in ('junos-get_configuration-xml', 'junos-compare_configuration', 'junos-command', 'sros-md_compare', 'alu-get_configuration'):
+            out.append({'kind': 'huge-mgr-op', 'op': op, 'depth': 300})
         return out
 
     def run_wire(self, case):
@@ -132,6 +138,44 @@ class C10(Check):
                 return {'ok': True, 'len': len(r.data_xml)}
             except Exception as e:
                 return {'ok': False, 'exc': type(e).__name__}
+        if case['kind'] == 'huge-concurrent':
+            import threading
+            d = case['depth']
+            deep = '<data>' + ''.join('<d%d>' % i for i in range(d)) + 'v' + ''.join('</d%d>' % i for i in reversed(range(d))) + '</data>'
+            errs = []
+
+            def work(k):
+                m, s, dh = make_manager(profile=case['profile'], responder=lambda req, mid: '<rpc-reply message-id="%s" xmlns="%s">%s</rpc-reply>' % (mid, BASE, deep), raise_mode=0)
+                m.huge_tree = True
+                for _ in range(case['rounds']):
+                    try:
+                        if len(m.get().data_xml) < d * 8:
+                            errs.append('short')
+                    except Exception as e:
+                        errs.append(type(e).__name__ + ': ' + str(e)[:60])
+            ths = [threading.Thread(target=work, args=(k,), daemon=True) for k in range(case['threads'])]
+            for t in ths:
+                t.start()
+            for t in ths:
+                t.join(120)
+            return {'ok': not errs, 'errs': errs[:3], 'n_err': len(errs)}
+        if case['kind'] == 'huge-mgr-op':
+            d = case['depth']
+            deep = ''.join('<d%d>' % i for i in range(d)) + 'v' + ''.join('</d%d>' % i for i in reversed(range(d)))
+            prof, opn = case['op'].split('-', 1)
+            m, s, dh = make_manager(profile=prof, responder=lambda req, mid: '<rpc-reply message-id="%s" xmlns="%s"><configuration>%s</configuration></rpc-reply>' % (mid, BASE, deep), raise_mode=0)
+            m.huge_tree = True
+            calls = {'get_configuration-xml': lambda: m.get_configuration(format='xml'), 'compare_configuration': lambda: m.compare_configuration(),
+                     'command': lambda: m.command('show version', format='xml'), 'md_compare': lambda: m.md_compare(),
+                     'get_configuration': lambda: m.get_configuration()}
+            try:
+                if not hasattr(m, opn.split('-')[0]):
+                    return {'ok': True, 'len': 10 ** 9, 'skipped': 'no such operation'}
+                r = calls[opn]()
+                v = r.data_xml if hasattr(r, 'data_xml') else r.xml
+                return {'ok': True, 'len': len(v)}
+            except Exception as e:
+                return {'ok': False, 'exc': type(e).__name__ + ': ' + str(e)[:80]}
         if case['kind'] == 'huge-op':
             big = 'y' * case['size']
             if case['op'] == 'get_schema':
@@ -308,6 +352,15 @@ class C10(Check):
                 return ('C10:raw-xml-altered', 'reply.xml is not the message the server sent (%s): got %r' % (tag, (io['xml'] or '')[:80]))
             if not io['data_ok']:
                 return ('C10:data-not-child', 'data_ele / data_xml missing over the transport (%s)' % tag)
+            return None
+        if case['kind'] == 'huge-concurrent':
+            if not io['ok']:
+                return ('C10:huge-tree-rejected:concurrent@' + case['profile'], '%d sessions (%s, huge_tree on) receiving replies %d elements deep at the same time: %d of %d calls failed (%s)' % (
+                    case['threads'], case['profile'], case['depth'], io['n_err'], case['threads'] * case['rounds'], io['errs']))
+            return None
+        if case['kind'] == 'huge-mgr-op':
+            if not io['ok'] or io['len'] < case['depth'] * 8:
+                return ('C10:huge-tree-rejected:' + case['op'], '%s on a manager with huge_tree enabled: a reply %d elements deep failed (%s)' % (case['op'], case['depth'], io.get('exc')))
             return None
         if case['kind'] == 'huge-op':
             if not io['ok'] or io['len'] < case['size']:
